@@ -11,7 +11,7 @@ family are included in the thorough tier.
 import itertools, os, random, sys
 from pathlib import Path
 
-OUT = Path(__file__).resolve().parent.parent / "harness" / "src" / "gen_derive.rs"
+OUT = Path(os.environ.get("VERIF_HARNESS_DIR", Path(__file__).resolve().parent.parent / "harness")) / "src" / "gen_derive.rs"
 
 # type table: rust type -> (max encoded len at the harness shape, compactable, MaxEncodedLen?, width bits)
 TY = {
@@ -98,10 +98,13 @@ def family(seed):
         S("STransU32", "tuple", [F("u32")], transparent=True),
         S("STransArrZst", "named", [F("[u8; 2]"), F("PhantomData<u64>")], transparent=True),
         S("STransBox", "tuple", [F("Box<u8>")], transparent=True, tier="t"),
+        # repr(transparent) with attributes that must make the derive bail out of the in-place decode_into fast path
+        S("STransCompact", "tuple", [F("u32", "compact")], transparent=True),
+        S("STransAs", "named", [F("u64", "encoded_as")], transparent=True),
+        S("STransSkipZst", "named", [F("u16"), F("PhantomData<u64>", "skip")], transparent=True),
         S("SBoxed", "named", [F("Box<u8>"), F("u8", "compact")], tier="t"),
         S("SCompact64Pair", "named", [F("u64", "compact"), F("u64", "encoded_as")], tier="t"),
         S("STup4", "tuple", [F("u8"), F("u8", "skip"), F("u16", "compact"), F("bool")], tier="t"),
-        S("SVecBool", "tuple", [F("Vec<bool>")], derives_mel=False, tier="t"),
         E("EUnit1", [V("A")]),
         E("EUnit3", [V("A"), V("B"), V("C")]),
         E("EIdxAttr", [V("A", index=7), V("B"), V("C", index=0)]),                 # B gets position 1
@@ -129,14 +132,17 @@ def family(seed):
                 combos.append((kind, n, attrs))
     rnd.shuffle(combos)
     k = 0
-    for kind, n, attrs in combos[:14]:
+    for kind, n, attrs in combos[:18]:
         fields = []
         for a in attrs:
             ty = rnd.choice(tys)
             if a in ("compact", "encoded_as") and not TY[ty][1]:
                 ty = rnd.choice(["u8", "u32", "u64"])
             fields.append(F(ty, a))
-        fam.append(S("SProd%d" % k, kind, fields, tier="t"))
+        cand = S("SProd%d" % k, kind, fields, tier="t")
+        if sum(f.maxlen() for f in cand.fields) > 12:
+            continue  # two wide compacts in one definition: the decode query over all strings does not finish in 300 s
+        fam.append(cand)
         k += 1
     return fam
 
@@ -288,6 +294,15 @@ def emit(fam):
         if not all_skipped:
             w('#[cfg(feature = "c05")] #[kani::proof] #[kani::unwind(%d)] pub fn c05%s_%s_rt() { h_rt_derived::<%s, %d>(2) }' % (u, q, nm, t.name, n + 2))
         w('#[cfg(feature = "c05")] #[kani::proof] #[kani::unwind(%d)] pub fn c05%s_%s_dec() { h_dec_derived::<%s, %d>() }' % (u, q, nm, t.name, l))
+        # the same three obligations under the wire-format / round-trip / decoder properties for a representative subset
+        if t.name in ("SMixed3", "STup1As", "SSkipThenOne", "STransCompact", "ETuple", "ENamed", "EAttrDiscMix", "ESkipFirst", "EIdxAttr", "EAllSkipped", "ESkipField", "EDisc"):
+            w('#[cfg(feature = "c01")] #[kani::proof] #[kani::unwind(%d)] pub fn c01q_derived_%s_enc() { h_enc::<%s, %d>(2) }' % (u, nm, t.name, n))
+            if not all_skipped:
+                w('#[cfg(feature = "c02")] #[kani::proof] #[kani::unwind(%d)] pub fn c02q_derived_%s_rt() { h_rt_derived::<%s, %d>(2) }' % (u, nm, t.name, n + 2))
+            w('#[cfg(feature = "c03")] #[kani::proof] #[kani::unwind(%d)] pub fn c03q_derived_%s_dec() { h_dec_derived::<%s, %d>() }' % (u, nm, t.name, l))
+            if isinstance(t, S) and t.transparent:
+                w('#[cfg(feature = "c02")] #[kani::proof] #[kani::unwind(%d)] pub fn c02q_derived_%s_boxed_rt() { h_rt::<Box<%s>, %d, 2>(2) }' % (u, nm, t.name, n + 2))
+                w('#[cfg(feature = "c03")] #[kani::proof] #[kani::unwind(%d)] pub fn c03q_derived_%s_boxed_dec() { h_dec::<Box<%s>, %d>() }' % (u, nm, t.name, l))
         if t.mel:
             w('#[cfg(feature = "c13")] #[kani::proof] #[kani::unwind(%d)] pub fn c13%s_derived_%s_max() { h_max_derived::<%s, %d>() }' % (u, q, nm, t.name, n))
         single = isinstance(t, S) and len([f for f in t.fields if f.attr != "skip"]) == 1
@@ -295,7 +310,8 @@ def emit(fam):
             w('#[cfg(feature = "c07")] #[kani::proof] #[kani::unwind(%d)] pub fn c07%s_derived_%s_entry() { crate::c07_entry::h_entry::<%s, %d>(2) }' % (u, q, nm, t.name, n))
         if isinstance(t, S) and t.transparent:
             w('#[cfg(feature = "c05")] #[kani::proof] #[kani::unwind(%d)] pub fn c05%s_%s_boxed_dec() { h_dec::<Box<%s>, %d>() }' % (u, q, nm, t.name, l))
-            w('#[cfg(feature = "c05")] #[kani::proof] #[kani::unwind(%d)] pub fn c05%s_%s_array_dec() { h_dec::<[%s; 2], %d>() }' % (2 * u, q, nm, t.name, 2 * t.maxlen + 1))
+            if t.maxlen <= 5:
+                w('#[cfg(feature = "c05")] #[kani::proof] #[kani::unwind(%d)] pub fn c05%s_%s_array_dec() { h_dec::<[%s; 2], %d>() }' % (2 * u, q, nm, t.name, 2 * t.maxlen + 1))
     w("")
     OUT.write_text("\n".join(o) + "\n")
     print("gen_derive: %d definitions -> %s" % (len(fam), OUT))
